@@ -78,4 +78,5 @@ func runC17(c *core.Ctx) {
 	h.removedReplicationMuted("C17.12 removed-muted")
 	c.Clause("C17.13 a failing replication retries within the follower's election timeout")
 	h.backOffCapped("C17.13 backoff-capped")
+	h.stepDownOnCommitOnlyWhenNotVoter("C17.7b step-down-on-commit-only-when-not-voter")
 }
